@@ -143,6 +143,7 @@ type Unit struct {
 	results  []*types.Var
 	resultVals []Val
 	loopN    int
+	inSpec   int
 	callN    map[string]int
 	safeN    map[string]int
 	closures map[types.Object]*ast.FuncLit
@@ -227,6 +228,9 @@ func (u *Unit) safeLabel(kind string) string {
 
 // safety obligation (skipped if the contract says `nosafe kind`)
 func (u *Unit) safe(kind string, pos token.Pos, st *State, goal string, src string) {
+	if u.inSpec > 0 {
+		return // specification terms are total: no safety obligations
+	}
 	if u.contract != nil && (u.contract.SkipSafe[kind] || u.contract.SkipSafe["all"]) {
 		return
 	}
